@@ -667,6 +667,7 @@ class Oracles:
                     self.violate("C09", "blocking-node-discarded", self.nlabel(nid), f"blocking source {nid} has num_item_discarded={self.stat(nid, 'num_item_discarded')}")
             if nr.type in ("splitter", "combiner"):
                 self.check_unit_node(nid, nr, node, now)
+                self.check_unit_input(nid, nr, node, now)
             if nr.type in PROC and nr.blocking and self.stat(nid, "num_item_discarded"):
                 self.violate("C09", "blocking-node-discarded", self.nlabel(nid), f"blocking {nid} has num_item_discarded={self.stat(nid, 'num_item_discarded')}")
 
@@ -704,6 +705,57 @@ class Oracles:
                     self.violate("C10", "room-but-not-pushed", self.nlabel(nid) + "," + self.elabel(e),
                                  f"{nid} holds finished {life['item']} (finished at {fin}) at end of instant {now} although out-edge {e} has room")
                     break
+
+    def check_unit_input(self, nid, nr, node, now):
+        """Input side of splitter / combiner (C10): an idle node asks for work and takes what is granted in the same instant."""
+        setup = nr.spec.get("setup", 0)
+        if now <= setup:
+            return
+        run = self.run
+        gtoks = self.node_tokens(nid, "g")
+        per = {}
+        for tk in gtoks:
+            per[tk.edge] = per.get(tk.edge, 0) + 1
+        in_edges = [e.id for e in node.in_edges]
+        lab = self.nlabel(nid)
+        if nr.type == "splitter":
+            if any(v > 1 for v in per.values()):
+                self.violate("C10", "leaked-retrieval-reservation", lab, f"{nid} has {per} outstanding retrieval reservations per in-edge at {now}")
+            if nr.held:
+                return          # busy: it may already hold the reservation for its next pallet
+            if any(tk.state == "granted" for tk in gtoks):
+                self.violate("C10", "granted-item-not-taken", lab, f"{nid} is idle and holds a granted, unused retrieval reservation at end of instant {now}")
+            if not gtoks:
+                self.violate("C10", "idle-without-request", lab, f"{nid} is idle but has no outstanding retrieval request at end of instant {now}")
+            if self.pol(nid, "in") == "FIRST_AVAILABLE":
+                for e in in_edges:
+                    if len(run.edge_ready(e)) - self.granted_unused(e, "g") > 0:
+                        self.violate("C10", "available-item-not-taken", lab + "," + self.elabel(e), f"{nid} is idle at end of instant {now} while in-edge {e} offers an unreserved item")
+            return
+        # combiner
+        recipe = nr.spec["recipe"]
+        filling = nr.pallet is not None and nr.pallet["item"] in nr.held and "complete_t" not in nr.pallet
+        if filling:
+            have = {}
+            for x, ii in nr.pallet.get("gathered", []):
+                have[ii] = have.get(ii, 0) + 1
+            for i, e in enumerate(in_edges):
+                if i == 0:
+                    continue
+                need = recipe[i] - have.get(i, 0)
+                if per.get(e, 0) != need and len(set(in_edges)) == len(in_edges):
+                    self.violate("C10", "ingredient-requests", lab, f"{nid} still needs {need} item(s) from in-edge {i} for pallet {nr.pallet['item']} but has "
+                                 f"{per.get(e, 0)} outstanding retrieval reservation(s) there at end of instant {now}")
+            if any(tk.state == "granted" for tk in gtoks):
+                self.violate("C10", "granted-item-not-taken", lab, f"{nid} is filling pallet {nr.pallet['item']} and holds a granted, unused retrieval reservation at end of instant {now}")
+        elif not nr.held:
+            e0 = in_edges[0]
+            if any(tk.state == "granted" for tk in gtoks):
+                self.violate("C10", "granted-item-not-taken", lab, f"{nid} holds no pallet and a granted, unused retrieval reservation at end of instant {now}")
+            if per.get(e0, 0) != 1 or len(gtoks) != 1:
+                self.violate("C10", "idle-without-request", lab, f"{nid} holds no pallet; outstanding retrieval reservations per in-edge at end of instant {now}: {per} (expected exactly one on its pallet edge)")
+            if len(run.edge_ready(e0)) - self.granted_unused(e0, "g") > 0:
+                self.violate("C10", "available-item-not-taken", lab + "," + self.elabel(e0), f"{nid} holds no pallet at end of instant {now} while its pallet edge {e0} offers an unreserved pallet")
 
     # ---- end of run ------------------------------------------------------------------------------------
     def on_build_error(self, e):
